@@ -241,15 +241,20 @@ def onlyOptionalQuantifiers (q : String) : Bool :=
   let toks := (tokenize (q.length + 1) q.toList #[]).toList
   toks.all fun t => match t with | .quant .star => false | .quant .plus => false | _ => true
 
+def hasQuantifierToken (q : String) : Bool :=
+  let toks := (tokenize (q.length + 1) q.toList #[]).toList
+  toks.any fun t => match t with | .quant _ => true | _ => false
+
 def runCase (s : St) : String :=
   let tail := s!"compiled={s.compiled.getD false} haserror={s.hasError}"
   match buildVT s.nodes.toList with
   | none => s!"{s.id} judge=FAIL badtree {tail}"
   | some vt =>
-    match parseQuery s.query s.sups with
+    match parseQuery s.query s.sups (maxFanout vt) with
     | none => s!"{s.id} judge=SKIP unsupported {tail}"
     | some items =>
-      let quant := Item.anyQuant items
+      -- quantified groups are unrolled by the parser: the text decides whether the query is quantified
+      let quant := Item.anyQuant items || hasQuantifierToken s.query
       if quant && maxFanout vt > 9 then
         -- wide tree + quantifiers: no enumeration; every real match is VERIFIED against the semantics
         -- (soundness, which is all the property demands of quantified patterns)
